@@ -2,6 +2,7 @@
 constellation symbol (BPSK, QPSK, M-PSK with phase offset, square M-QAM)."""
 import cmath
 import math
+import warnings
 from fractions import Fraction
 
 import numpy as np
@@ -18,7 +19,8 @@ RULE = ("every supported modulator (BPSK, QPSK, PSK 2..2^10 [2^12 thorough], "
         "[-2pi,2pi] (at construction or through setPhaseOffset), index arrays "
         "of 0..3 dimensions and received samples of six classes (on_point, "
         "box, boundary at 1e-1..1e-10 of the neighbour distance, corner, far "
-        "up to 1e6, origin); non-trivial = detection case with a sample "
+        "up to 1e6, origin; 1..8 samples drawn value by value plus 0..248 "
+        "from a drawn RandomState seed); non-trivial = detection case with a sample "
         "farther than 0.25 x (local neighbour distance) from every "
         "constellation point or of class boundary/corner, or a round-trip "
         "case with M > 64, a non-zero phase offset or an input that is not "
@@ -213,10 +215,53 @@ def _detect_st(draw, tier):
     cfg = draw(_cfg_st(tier))
     sclass = draw(st.sampled_from(SCLASSES))
     nmax = min(64 if tier == "quick" else 256, MEM_CAP // cfg["M"])
-    n = min(nmax, draw(st.sampled_from([1, 3, 8, 16, 32, 64, 64, 256])))
-    samples = draw(st.lists(_sample_st(sclass), min_size=n, max_size=n))
+    # up to 8 samples are drawn value by value (they shrink); the rest of the
+    # batch comes from RandomState(seed) with the same class and ranges
+    # (Hypothesis generation of hundreds of dicts costs more than the check)
+    samples = draw(st.lists(_sample_st(sclass), min_size=1, max_size=8))
+    extra = min(nmax - len(samples),
+                draw(st.sampled_from([0, 8, 24, 56, 56, 120, 248])))
     return dict(part="detect", cfg=cfg, sclass=sclass, samples=samples,
+                extra=max(0, extra), seed=draw(seeds),
                 layout=draw(st.integers(0, 5)))
+
+
+def _rand_sample(sclass, rs):
+    """seeded counterpart of _sample_st (same classes, same ranges)"""
+    i = int(rs.randint(0, 2 ** 20))
+
+    def u():
+        return float(rs.uniform(-1.0, 1.0))
+
+    def sign():
+        return int(rs.choice([-1, 1]))
+    if sclass == "on_point":
+        return dict(i=i, a=u(), b=u())
+    if sclass == "box":
+        return dict(u=u(), v=u())
+    if sclass == "boundary":
+        k = rs.randint(0, 3)
+        if k == 0:
+            t = float(rs.choice([0.0, 0.25, -0.25, 0.4]))
+        elif k == 1:
+            t = u()
+        else:
+            t = sign() * 10.0 ** float(rs.uniform(0.0, 3.0))
+        return dict(i=i, r=int(rs.randint(0, 8)),
+                    dexp=int(rs.randint(1, 11)), s=sign(), t=t)
+    if sclass == "corner":
+        return dict(i=i, r=int(rs.randint(0, 8)),
+                    dexp=int(rs.randint(1, 11)), s=sign(), s2=sign(),
+                    dexp2=int(rs.randint(1, 11)), side=sign())
+    if sclass == "far":
+        return dict(e=float(rs.uniform(0.5, 6.0)),
+                    th=float(rs.uniform(0.0, 2 * math.pi)))
+    if sclass == "origin":
+        k = rs.randint(0, 10)
+        e = None if k == 0 else (float(rs.uniform(-300.0, -9.0)) if k <= 2
+                                 else float(rs.uniform(-9.0, -1.0)))
+        return dict(e=e, th=float(rs.uniform(0.0, 2 * math.pi)))
+    raise AssertionError(sclass)
 
 
 def _constellation_st(tier):
@@ -565,7 +610,9 @@ def _part_reject(case, ctx):
             return
         ctor = getattr(f, cls)
         try:
-            obj = ctor(M)
+            with warnings.catch_warnings():
+                warnings.simplefilter("ignore")
+                obj = ctor(M)
         except Exception as exc:  # noqa  (contract: any exception)
             ctx.label("reject:raises:%s" % type(exc).__name__)
             return
@@ -602,7 +649,11 @@ def _part_detect(case, ctx):
     mod = _build(cfg)
     c = _symbols(mod)
     M = c.size
-    z = _make_samples(c, sclass, case["samples"])
+    specs = list(case["samples"])
+    if case.get("extra"):
+        rs = np.random.RandomState(case["seed"])
+        specs += [_rand_sample(sclass, rs) for _ in range(case["extra"])]
+    z = _make_samples(c, sclass, specs)
     arr, layout = _arrange(z, case["layout"])
     flat = np.asarray(arr).reshape(-1)
     tags = _tags(cfg, sclass=sclass, layout=layout)
